@@ -7,40 +7,40 @@ Import ListNotations.
 (* no stuck state: an open, unanswered connection always has the timer armed or a task pending.
    Full statement (kept type-checked); false of the model only for request lines outside the URL
    model (AOutOfModel: the model sends nothing there - the implementation does answer) *)
-Definition C15_no_stuck_full_statement : Prop := forall ip6 handler mw up ip fp evs,
+Definition C15_no_stuck_full_statement : Prop := forall ip6 handler mw up ucf ip fp evs,
   has_lost evs = false ->
-  let s := final ip6 handler mw up ip fp init evs in
+  let s := final ip6 handler mw up ucf ip fp init evs in
   closing s = true \/ timer s = TArmed \/ pending s <> [].
 
-Theorem C15_no_stuck_partial : forall ip6 handler mw up ip fp evs,
+Theorem C15_no_stuck_partial : forall ip6 handler mw up ucf ip fp evs,
   has_lost evs = false ->
   existsb (fun a => match a with AOutOfModel => true | _ => false end)
-          (flat (run ip6 handler mw up ip fp init evs)) = false ->
-  let s := final ip6 handler mw up ip fp init evs in
+          (flat (run ip6 handler mw up ucf ip fp init evs)) = false ->
+  let s := final ip6 handler mw up ucf ip fp init evs in
   closing s = true \/ timer s = TArmed \/ pending s <> [].
 Proof. exact Server_proofs.no_stuck_partial. Qed.
 Print Assumptions C15_no_stuck_partial.
 
 (* when the armed timer fires on an unanswered connection the peer gets 40 and the close *)
-Theorem C15_timeout_response : forall ip6 handler mw up ip fp evs,
-  let s := final ip6 handler mw up ip fp init evs in
+Theorem C15_timeout_response : forall ip6 handler mw up ucf ip fp evs,
+  let s := final ip6 handler mw up ucf ip fp init evs in
   timer s = TArmed -> sent s = false ->
-  snd (step ip6 handler mw up ip fp s ETimer) = [AWrite timeout_line; AClose].
+  snd (step ip6 handler mw up ucf ip fp s ETimer) = [AWrite timeout_line; AClose].
 Proof. exact Server_proofs.timeout_response. Qed.
 Print Assumptions C15_timeout_response.
 
 (* the timer is never armed while a complete request is being answered *)
-Theorem C15_not_armed_while_answering : forall ip6 handler mw up ip fp evs,
-  let s := final ip6 handler mw up ip fp init evs in
+Theorem C15_not_armed_while_answering : forall ip6 handler mw up ucf ip fp evs,
+  let s := final ip6 handler mw up ucf ip fp init evs in
   pending s <> [] -> timer s <> TArmed.
 Proof. exact Server_proofs.not_armed_while_answering. Qed.
 Print Assumptions C15_not_armed_while_answering.
 
 (* the monitor predicate holds of every model trace inside the URL model *)
-Theorem C15_ok_partial : forall ip6 handler mw up ip fp evs,
+Theorem C15_ok_partial : forall ip6 handler mw up ucf ip fp evs,
   existsb (fun a => match a with AOutOfModel => true | _ => false end)
-          (flat (run ip6 handler mw up ip fp init evs)) = false ->
-  Spec.C15.ok evs (run ip6 handler mw up ip fp init evs) = true.
+          (flat (run ip6 handler mw up ucf ip fp init evs)) = false ->
+  Spec.C15.ok evs (run ip6 handler mw up ucf ip fp init evs) = true.
 Proof. exact Server_proofs.c15_ok_partial. Qed.
 Print Assumptions C15_ok_partial.
 
@@ -64,38 +64,38 @@ From NV Require Import Prelude.Utf8 Equiv.ServerGlue Gen.ServerGen Equiv.ServerL
 From NV Require Equiv.EquivServerLoop Proofs.Server_on_code.
 Theorem C15_not_armed_while_answering_on_code : forall reenc : str -> str,
   EquivServerLoop.reenc_ok reenc ->
-  forall ip6 handler mw up ip fp evs,
-  let s := gen_final reenc ip6 handler mw up ip fp init evs in
+  forall ip6 handler mw up ucf ip fp evs,
+  let s := gen_final reenc ip6 handler mw up ucf ip fp init evs in
   pending s <> [] -> timer s <> TArmed.
 Proof. exact Server_on_code.not_armed_while_answering_on_code. Qed.
 Print Assumptions C15_not_armed_while_answering_on_code.
 
 Theorem C15_timeout_response_on_code : forall reenc : str -> str,
   EquivServerLoop.reenc_ok reenc ->
-  forall ip6 handler mw up ip fp evs,
-  let s := gen_final reenc ip6 handler mw up ip fp init evs in
+  forall ip6 handler mw up ucf ip fp evs,
+  let s := gen_final reenc ip6 handler mw up ucf ip fp init evs in
   timer s = TArmed -> sent s = false ->
-  snd (gen_step reenc ip6 handler mw up ip fp s ETimer) = [AWrite timeout_line; AClose].
+  snd (gen_step reenc ip6 handler mw up ucf ip fp s ETimer) = [AWrite timeout_line; AClose].
 Proof. exact Server_on_code.timeout_response_on_code. Qed.
 Print Assumptions C15_timeout_response_on_code.
 
 Theorem C15_no_stuck_on_code_partial : forall reenc : str -> str,
   EquivServerLoop.reenc_ok reenc ->
-  forall ip6 handler mw up ip fp evs,
+  forall ip6 handler mw up ucf ip fp evs,
   has_lost evs = false ->
   existsb (fun a => match a with AOutOfModel => true | _ => false end)
-          (flat (gen_run reenc ip6 handler mw up ip fp init evs)) = false ->
-  let s := gen_final reenc ip6 handler mw up ip fp init evs in
+          (flat (gen_run reenc ip6 handler mw up ucf ip fp init evs)) = false ->
+  let s := gen_final reenc ip6 handler mw up ucf ip fp init evs in
   closing s = true \/ timer s = TArmed \/ pending s <> [].
 Proof. exact Server_on_code.no_stuck_partial_on_code. Qed.
 Print Assumptions C15_no_stuck_on_code_partial.
 
 Theorem C15_ok_on_code_partial : forall reenc : str -> str,
   EquivServerLoop.reenc_ok reenc ->
-  forall ip6 handler mw up ip fp evs,
+  forall ip6 handler mw up ucf ip fp evs,
   existsb (fun a => match a with AOutOfModel => true | _ => false end)
-          (flat (gen_run reenc ip6 handler mw up ip fp init evs)) = false ->
-  Spec.C15.ok evs (gen_run reenc ip6 handler mw up ip fp init evs) = true.
+          (flat (gen_run reenc ip6 handler mw up ucf ip fp init evs)) = false ->
+  Spec.C15.ok evs (gen_run reenc ip6 handler mw up ucf ip fp init evs) = true.
 Proof. exact Server_on_code.c15_ok_partial_on_code. Qed.
 Print Assumptions C15_ok_on_code_partial.
 
